@@ -1,13 +1,22 @@
 package main
 
-// C25 / C26 facts:
-//   bfe_http/request.go   var reqWriteExcludeHeader = map[string]bool{ "K": true, ... }
-//   bfe_basic/common.go   var HopHeaders = []string{ ... }                     (C26 only)
+// C25 / C26 / C29 facts:
+//   bfe_http     var reqWriteExcludeHeader = map[string]bool{ "K": true, ... }
+//   bfe_basic    var HopHeaders = []string{ ... }                                   (C26, C29)
+//   bfe_server   var hopByHopProtected = map[string]bool{ bfe_basic.HeaderX: true } (C26, C29)
 // rendered as lists of byte lists so that Lean can `decide` over them.
+//
+// The extractors are SEMANTIC rather than syntactic: declarations are looked up in the whole package (any file), use sites
+// are searched in everything REACHABLE from the function the model describes (same-package functions, methods and closures
+// are followed transitively), table keys may be literals or named constants, map-valued tables are emitted sorted.
 
 import (
 	"fmt"
 	"go/ast"
+	"go/parser"
+	"go/token"
+	"os"
+	"path/filepath"
 	"sort"
 	"strings"
 )
@@ -34,57 +43,190 @@ func leanBytesList(name, doc string, xs []string) string {
 	return b.String()
 }
 
-// exclusion table of Request.write: keys mapped to the literal `true`, sorted.
-func c25ExcludeTable(repo string) ([]string, error) {
-	_, f, err := parseFile(repo, "bfe_http/request.go")
+// pkgFiles parses every non-test Go file of repo/dir that is built without the `verif` tag.
+func pkgFiles(repo, dir string) ([]*ast.File, error) {
+	ents, err := os.ReadDir(filepath.Join(repo, dir))
 	if err != nil {
 		return nil, err
 	}
-	v := findValue(f, "reqWriteExcludeHeader")
-	cl, ok := v.(*ast.CompositeLit)
-	if !ok {
-		return nil, fmt.Errorf("reqWriteExcludeHeader is not a composite literal")
+	var out []*ast.File
+	fset := token.NewFileSet()
+	for _, e := range ents {
+		n := e.Name()
+		if e.IsDir() || !strings.HasSuffix(n, ".go") || strings.HasSuffix(n, "_test.go") || strings.HasPrefix(n, "zz_verif_") {
+			continue
+		}
+		f, err := parser.ParseFile(fset, filepath.Join(repo, dir, n), nil, 0)
+		if err != nil {
+			return nil, err
+		}
+		out = append(out, f)
 	}
-	if mt, ok := cl.Type.(*ast.MapType); !ok || fmt.Sprint(mt.Key) != "string" || fmt.Sprint(mt.Value) != "bool" {
-		return nil, fmt.Errorf("reqWriteExcludeHeader is not a map[string]bool literal")
+	return out, nil
+}
+
+func pkgValue(files []*ast.File, name string) ast.Expr {
+	for _, f := range files {
+		if v := findValue(f, name); v != nil {
+			return v
+		}
+	}
+	return nil
+}
+
+// pkgFuncs returns every function or method of the package named name (recv "" = any receiver or none).
+func pkgFuncs(files []*ast.File, name string) []*ast.FuncDecl {
+	var out []*ast.FuncDecl
+	for _, f := range files {
+		for _, d := range f.Decls {
+			if fd, ok := d.(*ast.FuncDecl); ok && fd.Name.Name == name && fd.Body != nil {
+				out = append(out, fd)
+			}
+		}
+	}
+	return out
+}
+
+// reachable returns root and every same-package function/method it can call (by name; transitively, cycle-safe).
+func reachable(files []*ast.File, roots []*ast.FuncDecl) []*ast.FuncDecl {
+	seen := map[*ast.FuncDecl]bool{}
+	var out []*ast.FuncDecl
+	var visit func(fd *ast.FuncDecl, depth int)
+	visit = func(fd *ast.FuncDecl, depth int) {
+		if seen[fd] || depth > 6 {
+			return
+		}
+		seen[fd] = true
+		out = append(out, fd)
+		ast.Inspect(fd.Body, func(n ast.Node) bool {
+			c, ok := n.(*ast.CallExpr)
+			if !ok {
+				return true
+			}
+			name := ""
+			switch f := c.Fun.(type) {
+			case *ast.Ident:
+				name = f.Name
+			case *ast.SelectorExpr:
+				name = f.Sel.Name
+			}
+			if name != "" {
+				for _, callee := range pkgFuncs(files, name) {
+					visit(callee, depth+1)
+				}
+			}
+			return true
+		})
+	}
+	for _, r := range roots {
+		visit(r, 0)
+	}
+	return out
+}
+
+// strConst evaluates a string literal, a named string constant of the package, or pkgname.Const of one of the given
+// imported packages.
+func strConst(e ast.Expr, files []*ast.File, imported map[string][]*ast.File) (string, bool) {
+	switch v := e.(type) {
+	case *ast.BasicLit:
+		return strLit(v)
+	case *ast.ParenExpr:
+		return strConst(v.X, files, imported)
+	case *ast.Ident:
+		if d := pkgValue(files, v.Name); d != nil && d != e {
+			return strConst(d, files, imported)
+		}
+	case *ast.SelectorExpr:
+		if id, ok := v.X.(*ast.Ident); ok {
+			if fs, ok := imported[id.Name]; ok {
+				if d := pkgValue(fs, v.Sel.Name); d != nil {
+					return strConst(d, fs, nil)
+				}
+			}
+		}
+	}
+	return "", false
+}
+
+// boolSet reads a `map[string]bool{k: true, ...}` table (keys literal or constant) and returns the keys mapped to true, sorted.
+func boolSet(name string, e ast.Expr, files []*ast.File, imported map[string][]*ast.File) ([]string, error) {
+	cl, ok := e.(*ast.CompositeLit)
+	if !ok {
+		return nil, fmt.Errorf("%s is not a composite literal", name)
 	}
 	var keys []string
-	for _, e := range cl.Elts {
-		kv, ok := e.(*ast.KeyValueExpr)
+	for _, el := range cl.Elts {
+		kv, ok := el.(*ast.KeyValueExpr)
 		if !ok {
-			return nil, fmt.Errorf("reqWriteExcludeHeader: unexpected element")
+			return nil, fmt.Errorf("%s: unexpected element", name)
 		}
-		k, ok := strLit(kv.Key)
+		k, ok := strConst(kv.Key, files, imported)
 		if !ok {
-			return nil, fmt.Errorf("reqWriteExcludeHeader: non-literal key")
+			return nil, fmt.Errorf("%s: key is neither a string literal nor a string constant", name)
 		}
 		id, ok := kv.Value.(*ast.Ident)
 		if !ok || (id.Name != "true" && id.Name != "false") {
-			return nil, fmt.Errorf("reqWriteExcludeHeader[%q]: value is not a bool literal", k)
+			return nil, fmt.Errorf("%s[%q]: value is not a bool literal", name, k)
 		}
 		if id.Name == "true" {
 			keys = append(keys, k)
 		}
 	}
 	sort.Strings(keys)
-	// the use site must still be `req.Header.WriteSubset(w, reqWriteExcludeHeader)`
-	fd := findFunc(f, "Request", "write")
-	if fd == nil {
-		return nil, fmt.Errorf("(*Request).write not found")
+	out := keys[:0]
+	for i, k := range keys {
+		if i == 0 || k != keys[i-1] {
+			out = append(out, k)
+		}
 	}
+	return out, nil
+}
+
+// mentions reports whether any of the functions refers to identifier name.
+func mentions(fds []*ast.FuncDecl, name string) bool {
 	found := false
-	ast.Inspect(fd, func(n ast.Node) bool {
-		if c, ok := n.(*ast.CallExpr); ok {
-			if se, ok := c.Fun.(*ast.SelectorExpr); ok && se.Sel.Name == "WriteSubset" && len(c.Args) == 2 {
-				if id, ok := c.Args[1].(*ast.Ident); ok && id.Name == "reqWriteExcludeHeader" {
-					found = true
-				}
+	for _, fd := range fds {
+		ast.Inspect(fd.Body, func(n ast.Node) bool {
+			if id, ok := n.(*ast.Ident); ok && id.Name == name {
+				found = true
+			}
+			return !found
+		})
+	}
+	return found
+}
+
+// exclusion table of Request.write: keys mapped to true, sorted; it must still be used by what (*Request).write reaches.
+func c25ExcludeTable(repo string) ([]string, error) {
+	files, err := pkgFiles(repo, "bfe_http")
+	if err != nil {
+		return nil, err
+	}
+	v := pkgValue(files, "reqWriteExcludeHeader")
+	if v == nil {
+		return nil, fmt.Errorf("bfe_http.reqWriteExcludeHeader not found")
+	}
+	keys, err := boolSet("reqWriteExcludeHeader", v, files, nil)
+	if err != nil {
+		return nil, err
+	}
+	var roots []*ast.FuncDecl
+	for _, fd := range pkgFuncs(files, "write") {
+		if fd.Recv != nil && len(fd.Recv.List) == 1 {
+			t := fd.Recv.List[0].Type
+			if st, ok := t.(*ast.StarExpr); ok {
+				t = st.X
+			}
+			if id, ok := t.(*ast.Ident); ok && id.Name == "Request" {
+				roots = append(roots, fd)
 			}
 		}
-		return true
-	})
-	if !found {
-		return nil, fmt.Errorf("(*Request).write no longer calls Header.WriteSubset(w, reqWriteExcludeHeader)")
+	}
+	if len(roots) == 0 {
+		return nil, fmt.Errorf("(*Request).write not found")
+	}
+	if !mentions(reachable(files, roots), "reqWriteExcludeHeader") {
+		return nil, fmt.Errorf("nothing reachable from (*Request).write uses reqWriteExcludeHeader any more")
 	}
 	return keys, nil
 }
